@@ -225,7 +225,7 @@ def make_strategy(tier, k):
 
 
 def worker(k, n, tier, seed, known_buckets, extra):
-    return standard_worker(PROP, make_strategy(tier, k), evaluate, k, n, tier, seed, known_buckets, quick_examples=1500, thorough_examples=80000)
+    return standard_worker(PROP, make_strategy(tier, k), evaluate, k, n, tier, seed, known_buckets, quick_examples=1500, thorough_examples=30000)
 
 
 def run(tier, seed, known_buckets):
